@@ -106,17 +106,17 @@ PROPS = {
                 units=["task"], level="proof", assumptions=TASK_ASSUME,
                 explanation="inductive invariant I1 (live children == the one child owned by the state) assumed at entry and proved at every exit of both select arms of the job task, for every control, every child behaviour and every failure of kill/wait/spawn; CommandState::{spawn,wait,reset} bodies proved against the contracts the arms rely on"),
     "C06": dict(claim='Contracts on the graceful arms, Timer and PriorityReceiver::recv proved by Verus for all grace values, timings and queue contents; restart-exactly-once clauses on the continuation arms', trusted="environment stand-ins in prelude/task_env.rs (process-wrap child, tokio select/mpsc, user callbacks, clock), flag_env.rs; rewrite rules of the extractor; listed per run in evidence coverage.trusted_base and assumptions",
-                units=["task", "actionloop"], level="proof", assumptions=TASK_ASSUME + ["the library's own graceful quit (action::worker) is a caller of Job::stop_with_signal: its per-job quit task is proved (unit actionloop) to send the graceful stop with the requested signal and grace and then a NORMAL delete, which the job task holds back until the process has ended"]),
+                units=["task", "actionloop", "cliaction"], level="proof", assumptions=TASK_ASSUME + ["the CLI's quit closure (first request: graceful with the stop signal and stop timeout) is proved in unit cliaction", "the library's own graceful quit (action::worker) is a caller of Job::stop_with_signal: its per-job quit task is proved (unit actionloop) to send the graceful stop with the requested signal and grace and then a NORMAL delete, which the job task holds back until the process has ended"]),
     "C07": dict(claim='Ticket ledger (every received flag raised or parked, gone raised at task end) proved at every exit of both handlers and the loop shell incl. all failure exits; Flag wakes every registered waiter', trusted="environment stand-ins in prelude/task_env.rs (process-wrap child, tokio select/mpsc, user callbacks, clock), flag_env.rs; rewrite rules of the extractor; listed per run in evidence coverage.trusted_base and assumptions",
                 units=["task", "flag"], level="proof", assumptions=TASK_ASSUME + [
         "Flag::poll and Flag::raise are each treated as atomic (no interleaving inside one call; Relaxed orderings and the register-then-recheck argument are not verified)",
         "Ticket::poll (futures::future::select over job_gone and control_done) is not under contract: a ticket is ready iff one of its two flags is raised",
         "std Mutex poisoning (panic while the waker list is locked) is not modelled"]),
     "C09": dict(claim='Every control arm and the child-ended arm proved to refine a state machine transcribed from the Job API docs (log of spawns/signals/kills/hooks, state, ticket resolution)', trusted="environment stand-ins in prelude/task_env.rs (process-wrap child, tokio select/mpsc, user callbacks, clock), flag_env.rs; rewrite rules of the extractor; listed per run in evidence coverage.trusted_base and assumptions",
-                units=["task"], level="proof", assumptions=TASK_ASSUME),
+                units=["task", "flag"], level="proof", assumptions=TASK_ASSUME),
     "C10": dict(claim='recv/send contracts over the three queues proved for all queue contents and timer states; every Job method proved to send its controls in order with one priority', trusted="environment stand-ins in prelude/task_env.rs (process-wrap child, tokio select/mpsc, user callbacks, clock), flag_env.rs; rewrite rules of the extractor; listed per run in evidence coverage.trusted_base and assumptions",
                 units=["task"], level="proof", assumptions=TASK_ASSUME + [
-        "'looking at the queues' is the entry of recv: messages arriving during the blocking select may be picked in any order"]),
+        "'looking at the queues' is every moment a message is taken: on entry of recv (try_recv) and when the task wakes up from its biased select!; tokio's `biased;` is taken at its documented meaning (branches polled in the order written)"]),
     "C20": dict(units=["origins"], level="proof", assumptions=ORIGINS_ASSUME,
                 claim="ProjectType::{is_vcs,is_soft}, DirList::*, check_list, origins (ancestor walk, loop invariant, termination) and types proved by Verus against specs transcribed from the docs, for all paths and directory contents",
                 trusted="stand-ins in prelude/origins_env.rs (abstract paths, directory listing map, HashSet/array iterator idioms); string literals interned (R9)"),
@@ -221,7 +221,7 @@ PROPS = {
                              "DirTourist::new (canonicalize, filter construction) is covered only by the structural obligations on the VCS metadata directory globs"],
                 claim="Verus proves: only regular non-empty files count; each found file is appended once, tagged with its directory and VCS; from_origin returns exactly explicit + [git-config] + existing origin-level files + existing .ignore/.gitignore/.hgignore of every directory the walker hands out, in order, and feeds each to the walker's filter at once; the walker hands out only queued, unskipped, unignored, watch-related directories, queues every unignored listed subdirectory, prunes ignored ones with everything queued beneath them, and a skipped directory covers its whole subtree",
                 trusted="stand-ins in prelude/discover_env.rs (abstract file system, path theory axioms, HashSet/Vec idioms, IgnoreFilter verdicts)"),
-    "C11": dict(units=["globset", "ignore", "sources"], level="proof",
+    "C11": dict(units=["globset", "ignore", "sources", "clipatterns"], level="proof",
                 assumptions=["glob matchers (ignore::gitignore::Gitignore built from --filter/--ignore patterns) are uninterpreted functions of (matcher, path, is_dir); num_ignores() > 0 is read as 'filter patterns configured'",
                              "the backing ignore-files filterer is C03's contract (uninterpreted verdict here)",
                              "iterator idioms (paths().any, iter().any, peekable/peek) are redirected to prelude functions with sequence-level specs; every closure body is proved against its clause and ghost twin; the big per-path closure is outlined (R14) and proved as `per_path`",
@@ -259,6 +259,8 @@ PROPS["C20"]["thorough_engines"] = [replay_engine("ignorefiles", "origins_marker
 _STREAM = "3 seeded streams of 80 events sent to the real library (every priority, pass / reject / error verdicts, empty events, gaps from 0 to 2 x the 120 ms throttle): "
 PROPS["C01"]["thorough_engines"] = [replay_engine("lib", "event_stream_c01", "C01.bounded.each_accepted_event_in_exactly_one_batch",
     _STREAM + "each accepted, urgent or empty event reaches the action handler in exactly one batch, no rejected or errored one does, no batch is empty")]
+PROPS["C01"]["thorough_engines"] = PROPS["C01"]["thorough_engines"] + [replay_engine("lib", "fs_operations_reach_handler", "C01.bounded.real_fs_operations_reach_the_handler",
+    "real file system, native and poll watcher, one history each: create / write / create in a new nested directory / rename / remove under the watched directory each reach the action handler as an event naming the path (10 s allowed per step)")]
 PROPS["C02"]["thorough_engines"] = [replay_engine("lib", "event_stream_c02", "C02.bounded.no_batch_before_the_throttle_has_passed",
     _STREAM + "a batch without an urgent event is never handed over before the throttle has passed since its earliest event was sent (lower bound only; the upper bound is timing-sensitive and left to the proof)")]
 PROPS["C15"]["thorough_engines"] = [replay_engine("lib", "event_stream_c15", "C15.bounded.each_filter_error_reaches_the_error_handler_once",
@@ -268,7 +270,7 @@ PROPS["C04"]["thorough_engines"] = [replay_engine("supervisor", "control_sequenc
     _SEQ + "at every spawn (spawn hook) and at every 1 ms sample no process announced earlier for the same job is still in the process table")]
 PROPS["C09"]["thorough_engines"] = PROPS["C09"]["thorough_engines"] + [replay_engine("supervisor", "control_sequences_c09", "C09.bounded.state_and_spawn_count_follow_the_documented_semantics",
     _SEQ + "after each awaited control of a settled sequence the job is running / not running and has spawned as many processes as a reference model of the documented semantics says")]
-PROPS["C10"]["thorough_engines"] = [replay_engine("supervisor", "control_sequences_c10", "C10.bounded.normal_controls_run_in_send_order_once",
+PROPS["C10"]["thorough_engines"] = [_hist("supervisor", "urgent_overtakes_normal_when_parked", "C10", "an urgent control pending together with a normal one when the parked job task wakes up runs first (60 trials)")] + [replay_engine("supervisor", "control_sequences_c10", "C10.bounded.normal_controls_run_in_send_order_once",
     _SEQ + "the normal-priority marker controls interleaved with a burst run in send order, each once (high/urgent overtaking is not observable through the public API: proof only)")]
 PROPS["C05"]["thorough_engines"] = [script_engine("cli_on_busy.py", "cli_on_busy", "C05.bounded.one_change_mid_run_in_each_mode",
     "the real binary, started through a first change (--postpone), one change 1 s into a 3 s run in each --on-busy-update mode (do-nothing, queue, queue with a second change during the queued run, restart, signal with --signal SIGUSR1): the start/end/term/usr1 history of the command is the documented one and runs never overlap")]
